@@ -219,8 +219,18 @@ class Model:
         if not lines:
             return []
         data = ''.join(l + '\n' for l in lines)
-        p = subprocess.run([DRIVER], input=data, stdout=subprocess.PIPE, stderr=subprocess.PIPE,
-                           text=True, timeout=timeout)
+        try:
+            p = subprocess.run([DRIVER], input=data, stdout=subprocess.PIPE, stderr=subprocess.PIPE,
+                               text=True, timeout=timeout)
+        except subprocess.TimeoutExpired:
+            # one request on which the (total, fuel-driven) model does not finish in time must not take the whole run down:
+            # find it by bisection, answer it as unmodelled (callers skip such answers) and report it on stderr
+            if len(lines) == 1:
+                sys.stderr.write('model driver: no answer within %ss for request %s\n' % (timeout, lines[0][:400]))
+                return ['timeout unmodelled']
+            per = max(15, timeout // 6)
+            mid = len(lines) // 2
+            return self.batch(lines[:mid], timeout=per) + self.batch(lines[mid:], timeout=per)
         out = p.stdout.split('\n')
         if out and out[-1] == '':
             out.pop()
